@@ -9,19 +9,7 @@ import (
 // RemoveMatchComments removes pattern matched comments from file.Comments.
 func RemoveMatchComments(file *ast.File, pattern *regexp.Regexp) {
 	for _, group := range file.Comments {
-		before := group.List
-		if removed := ExtractMatchComments(group, pattern); removed == nil {
-			continue
-		}
-		// Keep the remaining lines adjacent to what follows the group: let them take over
-		// the positions of the last lines, so that removing the final line of a doc comment
-		// does not leave a gap that detaches the comment from its declaration.
-		offset := len(before) - len(group.List)
-		for i := len(group.List) - 1; 0 <= i; i-- {
-			c := *group.List[i]
-			c.Slash = before[i+offset].Slash
-			group.List[i] = &c
-		}
+		_ = ExtractMatchComments(group, pattern)
 	}
 }
 
